@@ -42,6 +42,7 @@ fn one_shot_perf(p: &Prepared, i: usize, st: &ScoreState) -> Result<PerformanceA
     })
 }
 
+#[allow(dead_code)]
 fn only_mania_combo_differs(a: &PerformanceAttributes, b: &PerformanceAttributes) -> bool {
     if let (PerformanceAttributes::Mania(x), PerformanceAttributes::Mania(y)) = (a, b) {
         let mut y2 = y.clone();
@@ -107,8 +108,6 @@ fn check_history(run: &mut Run, id: &str, p: &Prepared, ops: &[(POp, ScoreState)
                         if format!("{got:?}") != format!("{exp:?}") {
                             let cls = if !tclass.is_empty() {
                                 tclass
-                            } else if p.mode == 3 && p.mania_inc_mismatch && only_mania_combo_differs(&got, &exp) {
-                                "mania-gradual-combo-roundtrip"
                             } else {
                                 ""
                             };
@@ -127,6 +126,50 @@ fn check_history(run: &mut Run, id: &str, p: &Prepared, ops: &[(POp, ScoreState)
                         return;
                     }
                 }
+            }
+        }
+    }
+}
+
+/// The `Difficulty` handed to the gradual calculator already carries `passed_objects(k)`. The
+/// per-step limit the calculator applies must still be the number of objects passed so far: every
+/// value the walk yields equals the one-shot calculation with the same `Difficulty` and
+/// `passed_objects(i)`. (How many values such a calculator yields is not asserted here: whether a
+/// pre-set limit truncates the gradual calculators is outside the property's quantifier.)
+fn check_preset_limit(run: &mut Run, id: &str, p: &Prepared, k: u32) {
+    let gm = mode_of(p.mode);
+    let tclass = taiko_class(p);
+    let d = p.difficulty.clone().passed_objects(k);
+    let Ok(Ok(mut g)) = guarded(|| GradualPerformance::new_with_mode(d.clone(), &p.map, gm)) else {
+        run.fail("oracle:gradual-performance-new", "", id, format!("preset passed_objects({k})"), p.repro());
+        return;
+    };
+    run.count("preset-limit-walks");
+    for i in 1..=p.units {
+        let st = ScoreState { max_combo: i as u32, n300: i as u32, ..Default::default() };
+        let Ok(r) = guarded(|| g.next(st.clone())) else {
+            run.fail("oracle:perf-panic", tclass, id, format!("preset passed_objects({k}), step {i}"), p.repro());
+            return;
+        };
+        let Some(got) = r else { return };
+        let exp = guarded(|| {
+            Performance::new(&p.map).difficulty(d.clone()).mode_or_ignore(gm).passed_objects(i as u32).state(st.clone()).calculate()
+        });
+        match exp {
+            Ok(exp) if format!("{got:?}") == format!("{exp:?}") => {}
+            Ok(exp) => {
+                run.fail(
+                    "oracle:gradual-perf-ne-oneshot-preset-limit",
+                    tclass,
+                    id,
+                    format!("Difficulty carries passed_objects({k}); value {i}\ngradual {got:?}\none-shot {exp:?}"),
+                    p.repro(),
+                );
+                return;
+            }
+            Err(e) => {
+                run.fail("oracle:oneshot-perf-panic", "", id, e, p.repro());
+                return;
             }
         }
     }
@@ -172,6 +215,10 @@ pub fn run(tier: &str, seed: u64, only: Option<&str>) -> Run {
                         run.sample(format!("{}: mode={} objs={} ops={:?}", c.id, p.mode, p.objs, ops.iter().map(|o| o.0).collect::<Vec<_>>()));
                     }
                     check_history(&mut run, &c.id, &p, &ops);
+                }
+                if p.units >= 2 {
+                    let k = rng.range(1, p.units as i64) as u32;
+                    check_preset_limit(&mut run, &c.id, &p, k);
                 }
             }
             Err(e) if e.starts_with("convert:") => run.count("skipped:not-convertible"),
